@@ -134,11 +134,19 @@ def shrink(chk, case, key, rounds=14):
         if n <= 40:
             cands += [cur[:i] + cur[i + 1:] for i in range(n)]
         cands = [c for c in cands if 0 < len(c) < n][:160]
+        budget, kept = 400000, []           # bound the size of one batch (whole-machine cases)
+        for c in cands:
+            if len(c) <= budget:
+                kept.append(c)
+                budget -= len(c)
+        cands = kept
         best = attempt(cands)
         if best is None:
             break
         cur, out = best[0], best[1]
     for _ in range(8):
+        if len(cur) > 300:
+            break
         cands = []
         for i, t in enumerate(cur):
             for p in sorted(set(t[2])):
